@@ -225,3 +225,90 @@ def _items_bearing(prog, cls, seq_of):
 def _has_custom_inspect_context(prog, cls):
     m = prog.lookup_method(cls, "inspect_context")
     return m is not None and m.cls is not None and m.cls.qualname != "specs.base.Spec"
+
+
+def rule_S4(ctx):
+    res = RuleResult("S4", "context inspection checks the references of an entry before the "
+                           "names the entry itself assigns become visible")
+    prog = ctx.prog
+    f = None
+    for nf in prog.nested_functions:
+        if nf.qualname == "specs.base.Spec.inspect_context.inspect_ctx":
+            f = nf
+    if f is None:
+        raise AnalysisError("specs.base.Spec.inspect_context.inspect_ctx vanished")
+    check = None
+    update = None
+    for n in ast.walk(f.node):
+        if isinstance(n, ast.For) and "not in rolling_ctx" in unparse(n) and "errors.append" in unparse(n):
+            check = n
+        if isinstance(n, ast.If) and "_context_inputs" in unparse(n.test):
+            update = n
+    if check is None:
+        res.violated(("check",), _f("S4", f, f.node, "reference check",
+                                    "inspect_ctx no longer reports references to unassigned "
+                                    "variables"))
+        return res
+    if update is None:
+        res.holds(("order",), "no visibility update in inspect_ctx")
+        return res
+    if (check.lineno, check.col_offset) < (update.lineno, update.col_offset):
+        res.holds(("order",), "references are checked before the entry's own names are added")
+    else:
+        res.violated(("order",), _f(
+            "S4", f, update, "order of reference check and visibility update",
+            "the names assigned by an input/vars/publish/output entry are added to the known "
+            "context before that entry's own references are checked: an entry that references "
+            "the variable it assigns (count: <% ctx().count + 1 %>) passes inspection"))
+    return res
+
+
+def rule_S5(ctx):
+    res = RuleResult("S5", "every reader of a transition's 'do' normalises it the same way "
+                           "(sibling agreement between inspection and the engine)")
+    prog = ctx.prog
+    tms = prog.cls(MODELS + ".TaskMappingSpec")
+    forms = {}
+    for name, m in tms.methods.items():
+        for n in ast.walk(m.node):
+            if isinstance(n, ast.Assign) and len(n.targets) == 1 and isinstance(
+                    n.targets[0], ast.Name) and isinstance(n.value, ast.BoolOp):
+                v = n.value.values[0]
+                if isinstance(v, ast.Call) and isinstance(v.func, ast.Name) and v.func.id == "getattr" \
+                        and len(v.args) >= 2 and isinstance(v.args[1], ast.Constant) and v.args[1].value == "do":
+                    var = n.targets[0].id
+                    # statements in the same block that rewrite or transform the variable
+                    blk = getattr(n, "_parent", None)
+                    body = None
+                    for fld in ("body", "orelse"):
+                        lst = getattr(blk, fld, None)
+                        if isinstance(lst, list) and n in lst:
+                            body = lst[lst.index(n) + 1:]
+                    norm = []
+                    for s in body or []:
+                        txt = unparse(s)
+                        if isinstance(s, ast.If) and var in unparse(s.test) and "isinstance" in unparse(s.test):
+                            norm.append(txt.replace(var, "<DO>"))
+                        elif isinstance(s, ast.Assign) and any(
+                                isinstance(t, ast.Name) and t.id == var for t in s.targets):
+                            norm.append(txt.replace(var, "<DO>"))
+                    forms[m.qualname] = tuple(" ".join(x.split()) for x in norm)
+    if len(forms) < 3:
+        raise AnalysisError("fewer than three readers of 'do' in TaskMappingSpec (%d)" % len(forms))
+    ref = None
+    counts = {}
+    for q, fm in forms.items():
+        counts[fm] = counts.get(fm, 0) + 1
+    ref = max(counts.items(), key=lambda x: x[1])[0]
+    for q, fm in sorted(forms.items()):
+        inst = (q,)
+        if fm == ref:
+            res.holds(inst)
+        else:
+            m = prog.function(q)
+            res.violated(inst, _f(
+                "S5", m, m.node, "normalisation of 'do'",
+                "this reader normalises the transition's 'do' differently from its siblings "
+                "(%s vs %s): inspection and the engine disagree about which task a transition "
+                "names" % (list(fm), list(ref))))
+    return res
